@@ -193,8 +193,11 @@ class Run:
         self.S = S
         findings = load_findings(prop.ID)
         rng = random.Random(self.seed)
+        only = os.environ.get('VERIF_SLICES')      # development aid: a filtered run is never a verdict (exit 2, no evidence written)
         for sl in prop.slices(self.tier, rng):
+            if only and not any(x in sl.name for x in only.split(',')): continue
             self.run_slice(S, sl, findings)
+        if only: self.unsupported.append({'unsupported': 'VERIF_SLICES filter active: partial run'})
         try:
             if hasattr(prop, 'ENGINE_B') and not self.violations:
                 cfgs = prop.ENGINE_B if isinstance(prop.ENGINE_B, list) else [prop.ENGINE_B]
@@ -471,6 +474,7 @@ class Run:
         return code
 
     def write_evidence(self, extra=None):
+        if os.environ.get('VERIF_SLICES'): return
         prop = self.prop
         os.makedirs(os.path.join(VERIF, 'evidence'), exist_ok=True)
         ev = {
